@@ -104,7 +104,7 @@ func (e *Exec) query(extra *Term, label string) (string, Model) {
 		e.stats.Regions += 0
 		DumpQuery(fmt.Sprintf("%s-%d-%d.smt2", e.cfg.DumpUnknown, os.Getpid(), e.solver.Stats.Unknown), e.pc, extra)
 	}
-	if res == "unknown" && e.cfg.OneShotMs > 0 {
+	if res == "unknown" && e.cfg.OneShotMs > 0 && !e.hunting {
 		// fall-back: fresh non-incremental solvers in parallel (portfolio)
 		ms := e.cfg.OneShotMs
 		if !e.obligation {
@@ -258,6 +258,53 @@ func (e *Exec) branch(c *Term) bool {
 	return first
 }
 
+// huntBranch decides an assertion in bug-hunting mode: the violating side is
+// explored only if the solver produces a witness; "unknown" is recorded as
+// undecided and the assertion is assumed.
+func (e *Exec) huntBranch(c *Term, label string) bool {
+	if c.IsConst() {
+		return c.C == 1
+	}
+	if v, ok := e.evalFixed(c); ok {
+		return v != 0
+	}
+	if e.pcSet[c] {
+		return true
+	}
+	if e.pcSet[e.tc.BNot(c)] {
+		return false
+	}
+	tc := e.tc
+	if e.dpos < len(e.decisions) {
+		d := e.decisions[e.dpos]
+		e.dpos++
+		if d.Kind != 'b' {
+			panic(&pathAbort{status: "engine-error", msg: "decision kind mismatch during re-execution (hunt) at " + e.stackString(4)})
+		}
+		if d.B {
+			e.addPC(c)
+		} else {
+			e.addPC(tc.BNot(c))
+		}
+		return d.B
+	}
+	e.stats.Forks++
+	e.obligation, e.hunting = true, true
+	r, m := e.query(tc.BNot(c), "obligation")
+	e.obligation, e.hunting = false, false
+	switch r {
+	case "sat":
+		e.pushAlt(Decision{Kind: 'b', B: false}, m)
+	case "unsat":
+	default:
+		e.note("bug-hunting only: no counterexample within the solver time limit, not proven: " + label)
+	}
+	e.decisions = append(e.decisions, Decision{Kind: 'b', B: true})
+	e.dpos++
+	e.addPC(c)
+	return true
+}
+
 func (e *Exec) pushAlt(d Decision, m Model) {
 	dec := make([]Decision, e.dpos, e.dpos+1)
 	copy(dec, e.decisions[:e.dpos])
@@ -349,6 +396,9 @@ func (e *Exec) concretize(t *Term, what string) uint64 {
 			e.unsupported("cannot evaluate term under model while enumerating values (" + what + ")")
 		}
 		n++
+		if n == 64 && os.Getenv("GOSYM_DEBUG_CONC") != "" {
+			fmt.Fprintf(os.Stderr, "wide concretisation (%s) at %s\n", what, e.stackString(8))
+		}
 		if n > e.maxConc() {
 			e.unsupported(fmt.Sprintf("more than %d feasible values while concretising (%s)", e.maxConc(), what))
 		}
@@ -629,6 +679,17 @@ func (e *Exec) symIntercept(name string, args []Value) (Value, bool) {
 			e.violation("assert", label, "assertion failed: "+label)
 		}
 		return nil, true
+	case "symAssertHunt":
+		c := e.boolTerm(args[0])
+		label := e.goString(args[1])
+		e.res.Extra = nil
+		e.nAsserts++
+		if !e.huntBranch(c, label) {
+			e.violation("assert", label, "assertion failed: "+label)
+		}
+		return nil, true
+	case "symFmtFloatCount":
+		return tc.Const(64, uint64(len(e.floatArgs))), true
 	case "symReach":
 		label := e.goString(args[0])
 		for _, r := range e.res.Reach {
@@ -665,6 +726,9 @@ func (e *Exec) symIntercept(name string, args []Value) (Value, bool) {
 		return nil, true
 	case "symFSCrashAt":
 		e.fs().crashAt = e.concInt(args[0], "crash point")
+		return nil, true
+	case "symFSFailAt":
+		e.fs().failAt = e.concInt(args[0], "fault point")
 		return nil, true
 	case "symFSOps":
 		return tc.Const(64, uint64(e.fs().ops)), true
